@@ -1,10 +1,56 @@
 (** Correspondence driver for C11: sequential histories over scope trees with listeners; the
-    observation adds the listener event log (event code, firing scope, listener id), in order. *)
+    observation adds the listener event log (event code, firing scope, listener id), in order.
+
+    [CRace11]: histories in which a signalling operation (Kill / Stop / AppendError on a scope or
+    on its context) was issued WHILE a registration (NewChild, AddTasks) on a scope of the same
+    context was in progress: the harness forces the signal in between two instructions of the
+    registration ([RPair a b], one observation for the two together).  The model executes a
+    registration as one step, so what the implementation showed must be what the model shows for
+    one of the two orders of every such pair - the registration is atomic with respect to the end
+    of the parent's context, whichever side it falls on. *)
 From GC Require Import Common.Base Model.Scope Corr.C12.
 From Coq Require Import ZArith.
 
+Inductive rhop := RPlain (x : hop) | RPair (a b : hop).
+
+(** all linearisations; the flag says "an observation was taken after this item" *)
+Fixpoint lins (l : list rhop) : list (list (hop * bool)) :=
+  match l with
+  | [] => [[]]
+  | RPlain x :: l' => map (cons (x, true)) (lins l')
+  | RPair a b :: l' =>
+    map (fun t => (a, false) :: (b, true) :: t) (lins l') ++
+    map (fun t => (b, false) :: (a, true) :: t) (lins l')
+  end.
+
+(** the model's per-item observations folded onto the observed items: the outputs of an
+    unobserved item are carried to the next observed one, its closer / context view is dropped *)
+Fixpoint merge_obs (fl : list bool) (os : list stepobs) (carry : list sobs) : list stepobs :=
+  match fl, os with
+  | f :: fl', o :: os' =>
+    if f then {| so_main := carry ++ so_main o; so_closers := so_closers o; so_ctxs := so_ctxs o |}
+              :: merge_obs fl' os' []
+    else merge_obs fl' os' (carry ++ so_main o)
+  | _, _ => []
+  end.
+
+Definition log_eqb (st : state) (flog : list (nat * nat * nat)) : bool :=
+  list_eqb (fun (x y : nat * nat * nat) =>
+              Nat.eqb (fst (fst x)) (fst (fst y)) && Nat.eqb (snd (fst x)) (snd (fst y))
+              && Nat.eqb (snd x) (snd y))
+           (map (fun x => (event_code (fst (fst x)), snd (fst x), snd x)) (flat_log (log (sh st))))
+           flog.
+
+Definition lin_check (t : list (hop * bool)) (obs : list stepobs) (ferrs : list (list N))
+           (flog : list (nat * nat * nat)) : bool :=
+  let (os, st) := drive_all cfg_current (map fst t) in
+  list_eqb stepobs_eqb (merge_obs (map snd t) os []) obs
+  && list_eqb (list_eqb N.eqb) (map c_errors (ctxs (sh st))) ferrs
+  && log_eqb st flog.
+
 Inductive case :=
-| CSeq11 (h : list hop) (obs : list stepobs) (ferrs : list (list N)) (flog : list (nat * nat * nat)).
+| CSeq11 (h : list hop) (obs : list stepobs) (ferrs : list (list N)) (flog : list (nat * nat * nat))
+| CRace11 (h : list rhop) (obs : list stepobs) (ferrs : list (list N)) (flog : list (nat * nat * nat)).
 
 Definition check (c : case) : bool :=
   match c with
@@ -15,4 +61,10 @@ Definition check (c : case) : bool :=
                       && Nat.eqb (snd x) (snd y))
                    (map (fun x => (event_code (fst (fst x)), snd (fst x), snd x)) (flat_log (log (sh st))))
                    flog
+  | CRace11 h obs ferrs flog => existsb (fun t => lin_check t obs ferrs flog) (lins h)
   end.
+
+(** a history without pairs has one linearisation, and [CRace11] then asks what [CSeq11] asks *)
+Lemma lins_plain : forall h, lins (map RPlain h) = [map (fun x => (x, true)) h].
+Proof. induction h as [|x h IH]; simpl; [reflexivity | rewrite IH; reflexivity]. Qed.
+
